@@ -73,8 +73,9 @@ def bursts(max_len=7):
             kk = kind if not mix or k % 2 == 0 else ('t' if kind == 'x' else 'x')
             out.append([kk, ['last%d' % which, 0]])
         return out
+    length = st.one_of(st.integers(2, max_len), st.integers(2, max_len), st.integers(2, max_len), st.integers(max_len, 26))
     return st.builds(build, st.sampled_from(['x', 'x', 't']), st.tuples(st.sampled_from(['x0', 'xL', 'corner', 'tT', 't0', 'any']),
-                     st.integers(0, 10**6)).map(list), st.integers(0, 1), st.integers(2, max_len), st.booleans())
+                     st.integers(0, 10**6)).map(list), st.integers(0, 1), length, st.booleans())
 
 
 def graded_histories(max_ops=40, **kw):
@@ -86,7 +87,12 @@ def graded_histories(max_ops=40, **kw):
 
 def histories(max_ops=40, **kw):
     o = ops(**kw)
-    return st.one_of(st.lists(o, min_size=0, max_size=6),
+    if max_ops >= 30 and 't' in kw.get('allow', ('t',)) and 'x' in kw.get('allow', ('x',)):
+        deep = st.tuples(st.lists(o, max_size=6), bursts(), st.lists(o, max_size=6), bursts(), st.lists(o, max_size=4)).map(
+            lambda t: (t[0] + t[1] + t[2] + t[3] + t[4])[:max(max_ops, 40)])
+    else:
+        deep = st.lists(o, min_size=0, max_size=6)
+    return st.one_of(deep,st.lists(o, min_size=0, max_size=6),
                      st.lists(o, min_size=min(8, max_ops), max_size=max_ops),
                      st.lists(o, min_size=max_ops // 2, max_size=max_ops))
 
